@@ -608,7 +608,7 @@ def strat_env():
 
 
 RAND_COUNTS = {'clock': {'quick': 500, 'thorough': 12000},
-               'env': {'quick': 300, 'thorough': 12000}}
+               'env': {'quick': 500, 'thorough': 24000}}
 
 
 def _gen_rand(kind, builder):
@@ -694,14 +694,16 @@ def gen_date_grid(shard, nshards, tier, seed):
 
 def units(tier):
     return [
-        Unit('time-grid', 'enum', shards=16, gen=gen_time_grid, exhaustive=(tier == 'thorough')),
-        Unit('date-grid', 'enum', shards=16, gen=gen_date_grid, exhaustive=(tier == 'thorough')),
-        Unit('env-bytes', 'enum', shards=4, gen=gen_env_bytes, exhaustive=True),
+        Unit('time-grid', 'enum', shards={'quick': 2, 'thorough': 16}, gen=gen_time_grid,
+             exhaustive=(tier == 'thorough')),
+        Unit('date-grid', 'enum', shards={'quick': 2, 'thorough': 16}, gen=gen_date_grid,
+             exhaustive=(tier == 'thorough')),
+        Unit('env-bytes', 'enum', shards=2, gen=gen_env_bytes, exhaustive=True),
         Unit('clock-rand', 'enum', shards=16, gen=_gen_rand('clock', rand_clock_case)),
-        Unit('env-rand', 'enum', shards=16, gen=_gen_rand('env', rand_env_case)),
-        Unit('clock', 'hyp', shards=16, examples={'quick': 30, 'thorough': 600},
+        Unit('env-rand', 'enum', shards=8, gen=_gen_rand('env', rand_env_case)),
+        Unit('clock', 'hyp', shards=4, examples={'quick': 100, 'thorough': 2400},
              strategy=strat_clock),
-        Unit('env', 'hyp', shards=16, examples={'quick': 20, 'thorough': 600},
+        Unit('env', 'hyp', shards=2, examples={'quick': 120, 'thorough': 4800},
              strategy=strat_env),
     ]
 
